@@ -10,5 +10,11 @@ def handle (fn : String) (args : List Json) : String :=
   | "compact" => match args with
     | [a0] => (do let x0 ← Wire.decStr a0; pure (Wire.respondWith Wire.encStr (Gen.gh_tin.compact x0)) : Option String).getD "badargs"
     | _ => "badargs"
+  | "is_valid" => match args with
+    | [a0] => (do let x0 ← Wire.decStr a0; pure (Wire.respondWith Wire.encBool (Gen.gh_tin.is_valid x0)) : Option String).getD "badargs"
+    | _ => "badargs"
+  | "validate" => match args with
+    | [a0] => (do let x0 ← Wire.decStr a0; pure (Wire.respondWith Wire.encStr (Gen.gh_tin.validate x0)) : Option String).getD "badargs"
+    | _ => "badargs"
   | _ => "nofunc"
 end Driver.D_gh_tin
